@@ -114,6 +114,51 @@ AXIOMS += [
      "by\n  intro P u Q v h\n  unfold FacDiff\n  exact div_mul_cancel₀ _ (ne_of_gt h)"),
 ]
 
+def _support(P, u):
+    return forall_k(("=>", ("not", ("mem", "k", P)), ("=", ("get", u, "k"), ("num", 0))))
+
+
+_EXT = "(by intro x hx; simp only [Finset.mem_union]; tauto)"
+AXIOMS += [
+    # multiplying / dividing two containers adds / subtracts exponents: dimensions add / subtract, factors multiply
+    ("linadd", "dims_add",
+     ("forall", V("b:K", "P:Set", "u:Map", "Q:Set", "v:Map", "R:Set", "w:Map"),
+      ("=>", ("and", forall_k(("=", ("get", "w", "k"), ("+", ("get", "u", "k"), ("get", "v", "k")))),
+              _support("R", "w"), _support("P", "u"), _support("Q", "v")),
+       ("=", app("DimS", "b", "R", "w"), ("+", app("DimS", "b", "P", "u"), app("DimS", "b", "Q", "v"))))),
+     "by\n  intro b P u Q v R w h\n  obtain ⟨hw, hR, hP, hQ⟩ := h\n"
+     f"  have e1 := lins_ext d1 b R (P ∪ Q ∪ R) w {_EXT} hR\n"
+     f"  have e2 := lins_ext d1 b P (P ∪ Q ∪ R) u {_EXT} hP\n"
+     f"  have e3 := lins_ext d1 b Q (P ∪ Q ∪ R) v {_EXT} hQ\n"
+     "  rw [e1, e2, e3]\n  unfold LinS\n  rw [← Finset.sum_add_distrib]\n"
+     "  apply Finset.sum_congr rfl\n  intro k _\n  rw [hw k]\n  ring"),
+    ("linadd", "dims_sub",
+     ("forall", V("b:K", "P:Set", "u:Map", "Q:Set", "v:Map", "R:Set", "w:Map"),
+      ("=>", ("and", forall_k(("=", ("get", "w", "k"), ("-", ("get", "u", "k"), ("get", "v", "k")))),
+              _support("R", "w"), _support("P", "u"), _support("Q", "v")),
+       ("=", app("DimS", "b", "R", "w"), ("-", app("DimS", "b", "P", "u"), app("DimS", "b", "Q", "v"))))),
+     "by\n  intro b P u Q v R w h\n  obtain ⟨hw, hR, hP, hQ⟩ := h\n"
+     f"  have e1 := lins_ext d1 b R (P ∪ Q ∪ R) w {_EXT} hR\n"
+     f"  have e2 := lins_ext d1 b P (P ∪ Q ∪ R) u {_EXT} hP\n"
+     f"  have e3 := lins_ext d1 b Q (P ∪ Q ∪ R) v {_EXT} hQ\n"
+     "  rw [e1, e2, e3]\n  unfold LinS\n  rw [← Finset.sum_sub_distrib]\n"
+     "  apply Finset.sum_congr rfl\n  intro k _\n  rw [hw k]\n  ring"),
+    ("facprod", "facprod_def",
+     ("forall", V("P:Set", "u:Map", "Q:Set", "v:Map", "R:Set", "w:Map"),
+      ("=>", ("and", forall_k(("=", ("get", "w", "k"), ("+", ("get", "u", "k"), ("get", "v", "k")))),
+              _support("R", "w"), _support("P", "u"), _support("Q", "v"),
+              forall_k(("<", ("num", 0), app("f1", "k")))),
+       ("=", app("FacS", "R", "w", ("num", 1)),
+        ("*", app("FacS", "P", "u", ("num", 1)), app("FacS", "Q", "v", ("num", 1)))))),
+     "by\n  intro P u Q v R w h\n  obtain ⟨hw, hR, hP, hQ, hpos⟩ := h\n"
+     f"  have e1 := facs_ext f1 R (P ∪ Q ∪ R) w 1 {_EXT} hR\n"
+     f"  have e2 := facs_ext f1 P (P ∪ Q ∪ R) u 1 {_EXT} hP\n"
+     f"  have e3 := facs_ext f1 Q (P ∪ Q ∪ R) v 1 {_EXT} hQ\n"
+     "  rw [e1, e2, e3]\n  unfold FacS\n  rw [← Finset.prod_mul_distrib]\n"
+     "  apply Finset.prod_congr rfl\n  intro k _\n  simp only [one_mul, hw k, Real.rpow_eq_pow]\n"
+     "  exact Real.rpow_add (hpos k) (u k) (v k)"),
+]
+
 LEAN_PRELUDE = """import Mathlib
 open Finset
 noncomputable section
@@ -135,6 +180,13 @@ theorem facs_ext (f1 : K → ℝ) (S U : Finset K) (x : K → ℝ) (e : ℝ) (hS
   apply Finset.prod_subset hS
   intro k _ hk
   simp [hx k hk, Real.rpow_eq_pow]
+
+theorem lins_ext (w : K → K → ℝ) (b : K) (S U : Finset K) (x : K → ℝ) (hS : S ⊆ U)
+    (hx : ∀ k, k ∉ S → x k = 0) : LinS w b S x = LinS w b U x := by
+  unfold LinS
+  apply Finset.sum_subset hS
+  intro k _ hk
+  simp [hx k hk]
 
 variable (d1 r1 : K → K → ℝ) (f1 : K → ℝ)
 """
